@@ -62,17 +62,16 @@ __CPROVER_requires(1 <= j && j <= i && i <= d)
 __CPROVER_assigns()
 __CPROVER_ensures(0 <= i * (i - 1) / 2 + j - 1 && i * (i - 1) / 2 + j - 1 < d * (d + 1) / 2);
 
-/* CovMat row r (1-based) starts at  (r-1)(b+1) - t(t+1)/2,  t = max(0, r-1-(d-b)),  and holds min(b,d-r)+1 elements */
-void gv_lemma_cov_row(int d, int b, int r)
+/* CovMat row r (1-based) starts at  (r-1)(b+1) - t(t+1)/2,  t = max(0, r-1-(d-b)),  and holds min(b,d-r)+1 elements.
+   Stated over the stored fields b1 = band_1 = b+1 and db = dim_b = d-b, in the shape the code computes it. */
+void gv_lemma_cov_row(int d, int b, int b1, int db, int r)
 __CPROVER_requires(GV_MACHINE_BOUND(d <= 32768))
-__CPROVER_requires(0 <= b && b < d && 1 <= r && r <= d)
+__CPROVER_requires(0 <= b && b < d && b1 == b + 1 && db == d - b && 1 <= r && r <= d)
 __CPROVER_assigns()
-__CPROVER_ensures(r - 1 <= d - b ==> (0 <= (r - 1) * (b + 1) &&
-                                      (r - 1) * (b + 1) + GV_MIN(b, d - r) < d * (b + 1) - b * (b + 1) / 2))
-__CPROVER_ensures(r - 1 > d - b ==>
-                  (0 <= (r - 1) * (b + 1) - (r - 1 - (d - b)) * (r - (d - b)) / 2 &&
-                   (r - 1) * (b + 1) - (r - 1 - (d - b)) * (r - (d - b)) / 2 + GV_MIN(b, d - r) <
-                     d * (b + 1) - b * (b + 1) / 2));
+__CPROVER_ensures(r - 1 <= db ==> (0 <= (r - 1) * b1 && (r - 1) * b1 + GV_MIN(b, d - r) < d * (b + 1) - b * (b + 1) / 2))
+__CPROVER_ensures(r - 1 > db ==> (0 <= (r - 1) * b1 - (r - 1 - db) * (r - 1 - db + 1) / 2 &&
+                                  (r - 1) * b1 - (r - 1 - db) * (r - 1 - db + 1) / 2 + GV_MIN(b, d - r) <
+                                    d * (b + 1) - b * (b + 1) / 2));
 
 void gv_lemma_band_bounds(int d, int b, int r, int k)
 __CPROVER_requires(GV_MACHINE_BOUND(d <= 32768 && b < 32768))
@@ -116,7 +115,7 @@ __CPROVER_ensures(0 <= (r - 1) * (b + 1) + k && (r - 1) * (b + 1) + k < d * (b +
   __CPROVER_ensures(0 <= MV_MAT_OFF(self, r, c) && MV_MAT_OFF(self, r, c) < self->base.mem.sz)
 
 /* SymMat: lower triangle by rows, (i,j) and (j,i) are the same element */
-#define MV_SYM_OFF(i, j) (GV_MAX(i, j) * (GV_MAX(i, j) - 1) / 2 + GV_MIN(i, j) - 1)
+#define MV_SYM_OFF(i, j) ((i) >= (j) ? (i) * ((i) - 1) / 2 + (j) - 1 : (j) * ((j) - 1) / 2 + (i) - 1)
 #define MV_CONTRACT_SymMat_at \
   __CPROVER_requires(WF_SYM(self) && 1 <= i && i <= self->dim_ && 1 <= j && j <= self->dim_) \
   __CPROVER_assigns() \
@@ -131,7 +130,8 @@ __CPROVER_ensures(0 <= (r - 1) * (b + 1) + k && (r - 1) * (b + 1) + k < d * (b +
 /* CovMat::operator[](row): address of the diagonal element of `row`; the row owns min(b, d-row)+1 elements */
 #define MV_COV_T(self, row) ((row) - 1 - (self)->dim_b)
 #define MV_COV_ROWOFF(self, row) \
-  (((row) - 1) * (self)->band_1 - (MV_COV_T(self, row) > 0 ? MV_COV_T(self, row) * (MV_COV_T(self, row) + 1) / 2 : 0))
+  ((row) - 1 > (self)->dim_b ? ((row) - 1) * (self)->band_1 - MV_COV_T(self, row) * (MV_COV_T(self, row) + 1) / 2 \
+                             : ((row) - 1) * (self)->band_1)
 #define MV_COV_ROWLEN(self, row) (GV_MIN((self)->band_, (self)->base.row_ - (row)) + 1)
 #define MV_CONTRACT_CovMat_row \
   __CPROVER_requires(WF_COV(self) && 1 <= row && row <= self->base.row_) __CPROVER_assigns() \
@@ -141,8 +141,10 @@ __CPROVER_ensures(0 <= (r - 1) * (b + 1) + k && (r - 1) * (b + 1) + k < d * (b +
 
 /* CovMat(r,s): inside the band the element (min,max) of the stored upper triangle; outside the band the
    const accessor yields 0 and the non-const accessor raises BadIndex (exactly there) */
-#define MV_COV_INBAND(self, r, s) (GV_MAX(r, s) - GV_MIN(r, s) <= (self)->band_)
-#define MV_COV_OFF(self, r, s) (MV_COV_ROWOFF(self, GV_MIN(r, s)) + (GV_MAX(r, s) - GV_MIN(r, s)))
+#define MV_LO(r, s) ((r) > (s) ? (s) : (r))
+#define MV_HI(r, s) ((r) > (s) ? (r) : (s))
+#define MV_COV_INBAND(self, r, s) (!(MV_HI(r, s) > MV_LO(r, s) + (self)->band_))
+#define MV_COV_OFF(self, r, s) (MV_COV_ROWOFF(self, MV_LO(r, s)) + (MV_HI(r, s) - MV_LO(r, s)))
 #define MV_CONTRACT_CovMat_at \
   __CPROVER_requires(WF_COV(self) && 1 <= r && r <= self->base.row_ && 1 <= s && s <= self->base.row_) \
   __CPROVER_requires(gv_exc == 0) \
@@ -160,7 +162,7 @@ __CPROVER_ensures(0 <= (r - 1) * (b + 1) + k && (r - 1) * (b + 1) + k < d * (b +
   __CPROVER_ensures(!MV_COV_INBAND(self, r, s) ==> __CPROVER_return_value == 0)
 
 /* BandMat(r,s): row min(r,s) owns b+1 slots, slot |r-s| */
-#define MV_BAND_OFF(self, r, s) ((GV_MIN(r, s) - 1) * ((self)->band_ + 1) + (GV_MAX(r, s) - GV_MIN(r, s)))
+#define MV_BAND_OFF(self, r, s) ((MV_LO(r, s) - 1) * ((self)->band_ + 1) + (MV_HI(r, s) - MV_LO(r, s)))
 #define MV_CONTRACT_BandMat_at \
   __CPROVER_requires(WF_BAND(self) && 1 <= r && r <= self->base.row_ && 1 <= s && s <= self->base.row_) \
   __CPROVER_requires(gv_exc == 0) \
